@@ -253,6 +253,9 @@ func (o operand) text() string {
 func (g *Gen) genText(multi bool) []byte {
 	r := g.r
 	words := []string{"a", "Hello", " ", ", ", "x=", "<b>", "</b>", "\"q\"", "'", "&", ".", ";", "#", "100%", "{", "}", "[", "]", "|", "?", ":", "=", "A B", "é", "~", "\\"}
+	if g.p.Regions && r.Chance(20) {
+		words = append(words, "\x01", "\x1b[1m", "\x0b", "\x1f", "\x7f", "\x00")
+	}
 	n := 1 + r.Intn(3)
 	var b []byte
 	for i := 0; i < n; i++ {
@@ -710,6 +713,10 @@ func (g *Gen) genItem(depth int) *Ast {
 						c.Cond.LQuote = `"`
 					}
 					c.Body = append([]*Ast{{K: "text", Text: g.marker()}}, g.genItems(depth+1, r.Intn(2))...)
+					if r.Chance(15) {
+						c.Body = nil
+						g.tag("switch:empty-case")
+					}
 					a.Cases = append(a.Cases, c)
 				}
 				g.tag("switch:classic")
@@ -722,6 +729,10 @@ func (g *Gen) genItem(depth int) *Ast {
 					c.Cond = ACond{L: "nosuch.X", Op: "==", R: "1", RLit: true}
 				}
 				c.Body = append([]*Ast{{K: "text", Text: g.marker()}}, g.genItems(depth+1, r.Intn(2))...)
+				if r.Chance(15) {
+					c.Body = nil // a case that renders nothing, yet wins over later cases and the default
+					g.tag("switch:empty-case")
+				}
 				a.Cases = append(a.Cases, c)
 			}
 			g.tag("switch:free")
@@ -739,6 +750,9 @@ func (g *Gen) genItem(depth int) *Ast {
 		a := &Ast{K: k}
 		if g.p.BreakN && r.Chance(55) {
 			a.N = 1 + r.Intn(g.loopD+1)
+			if r.Chance(12) {
+				a.N = []int{10, 12, 25, 100}[r.Intn(4)] // far beyond the nesting depth, two and three digits
+			}
 			g.tag(fmt.Sprintf("%s:N", k))
 		}
 		if r.Chance(60) {
@@ -771,6 +785,11 @@ func (g *Gen) genItem(depth int) *Ast {
 		}
 		if v[0] == 'o' {
 			c = &ACond{L: v, Op: cmpOps[r.Intn(2)], R: fmt.Sprint(r.Bool()), RLit: true}
+		}
+		if v[0] != 'o' && r.Chance(25) {
+			// variable against variable with a counter on the right
+			c = &ACond{L: v, Op: cmpOps[r.Intn(6)], R: fmt.Sprintf("n%d", r.Intn(2))}
+			g.tag("cond:right-counter")
 		}
 		a := &Ast{K: "if", Cond: c, Then: []*Ast{{K: "text", Text: g.marker()}}}
 		if r.Chance(60) {
@@ -872,7 +891,19 @@ func (g *Gen) loopCombos(body []*Ast, depth int) []*Ast {
 		}
 		return a
 	}
-	switch r.Intn(5) {
+	switch r.Intn(6) {
+	case 5:
+		// lazybreak N, then a sibling range loop that has nothing to iterate over (absent variable,
+		// absent field), with or without an else branch
+		if g.loopD < 2 {
+			return body
+		}
+		g.tag("combo:lazyN-then-empty-range")
+		rl := &Ast{K: "rloop", Var: g.newVar("v"), Src: []string{"nosuch.Items", "absent", "user.Nope"}[r.Intn(3)], Body: []*Ast{{K: "text", Text: g.marker()}}}
+		if r.Bool() {
+			rl.HasElse, rl.Else = true, []*Ast{{K: "text", Text: g.marker()}}
+		}
+		return append(body, mk("lazybreak", 2+r.Intn(2)), &Ast{K: "text", Text: g.marker()}, rl, &Ast{K: "text", Text: g.marker()})
 	case 4:
 		// a nested loop leaves with break / lazybreak 2, then the enclosing iteration ends in a continue
 		if depth >= g.p.MaxDepth {
@@ -963,8 +994,35 @@ func (g *Gen) genCLoop(depth int) *Ast {
 	a.InitLit, a.LimLit = true, true
 	g.tag("cloop:" + a.Op + a.Step)
 	g.tag(fmt.Sprintf("cloop:trips=%d", n))
-	// variable bounds: a static int variable holding the same number
-	if r.Chance(30) {
+	// a bound or initial value through a dedicated variable: integers of several widths and
+	// numbers held as text; with both as variables the whole loop may lie below zero (negative
+	// numbers cannot be written in the loop header at all)
+	if r.Chance(25) {
+		mkVar := func(val string, shift int64) string {
+			var z int64
+			fmt.Sscan(val, &z)
+			z += shift
+			kinds := []string{"int", "int64", "int8", "string", "setstring", "bytes", "setbytes"}
+			if z >= 0 {
+				kinds = append(kinds, "uint", "uint32")
+			}
+			k := kinds[r.Intn(len(kinds))]
+			name := fmt.Sprintf("b%d", len(g.data.Statics))
+			g.data.Statics = append(g.data.Statics, StaticVar{Name: name, Kind: k, Ptr: r.Chance(70), I: z, U: uint64(z), S: []byte(fmt.Sprint(z))})
+			g.tag("cloop:bound-var:" + k)
+			return name
+		}
+		switch r.Intn(4) {
+		case 0:
+			a.Init, a.InitLit = mkVar(a.Init, 0), false
+		case 1:
+			a.Init, a.InitLit = mkVar(a.Init, -4), false
+			a.Lim, a.LimLit = mkVar(a.Lim, -4), false
+			g.tag("cloop:below-zero")
+		default:
+			a.Lim, a.LimLit = mkVar(a.Lim, 0), false
+		}
+	} else if r.Chance(30) {
 		for i := range g.data.Statics {
 			s := &g.data.Statics[i]
 			if (s.Kind == "int" || s.Kind == "int64") && fmt.Sprint(s.I) == a.Lim {
@@ -1024,6 +1082,11 @@ func (g *Gen) genRLoop(depth int) *Ast {
 		a.Var = g.newVar("v")
 	default:
 		a.Key, a.Var = g.newVar("k"), g.newVar("v")
+	}
+	if a.Key != "" && len(g.past) > 0 && g.loopD == 0 && r.Chance(20) {
+		// the key takes over the name of a counter loop that has ended (a name changes its kind)
+		a.Key = g.past[r.Intn(len(g.past))]
+		g.tag("rloop:key-reuses-counter-name")
 	}
 	if r.Chance(45) {
 		a.Sep = []string{",", ";", "|", "-", ", ."}[r.Intn(5)]
